@@ -45,6 +45,7 @@ SimSetup sim_setup(const Args& a) {
   s.cfg.stepCap = a.u("cap", 50000000ull);
   s.cfg.recordTrace = a.i("trace", 0) != 0;
   s.thresholdDiv = (size_t)a.u("thr", 1);
+  s.maxUnionSize = (size_t)a.u("mus", 0);
   std::string sc = a.s("script", "");
   if (!sc.empty() && sc != "-") {
     for (auto& tok : split(sc, ',')) {
@@ -83,6 +84,7 @@ SimOutcome run_simulated(const SimSetup& s, const std::function<void()>& body) {
   manifold::Quality::ResetToDefaults();
   manifold::verif::ResetCaches();  // hook H4: no state carried over from earlier runs in this process
   manifold::verif::hooks.thresholdDiv = s.thresholdDiv;
+  manifold::verif::hooks.maxUnionSize = s.maxUnionSize;  // hook H5
   manifold::verif::hooks.syncPoint = sync_cb;
   sim::Config cfg = s.cfg;
   cfg.script = s.script.empty() ? nullptr : s.script.data();
@@ -91,6 +93,7 @@ SimOutcome run_simulated(const SimSetup& s, const std::function<void()>& body) {
   out.st = sim::run(cfg, trampoline, &b);
   manifold::verif::hooks.syncPoint = nullptr;
   manifold::verif::hooks.thresholdDiv = 1;
+  manifold::verif::hooks.maxUnionSize = 0;
   if (cfg.recordTrace) {
     size_t len;
     bool trunc;
